@@ -112,7 +112,7 @@ CLAIMS = {
              "next_direction's are the same kernel; tile_unit_cell has n_x·n_y·|E| edges, each of the stated shape and inside n_x·n_y·k vertices. Edges, crossings and colourings "
              "of honeycomb (n=2..16), hex-square-oct (2..8), tri-non (all (n_x,n_y) in 2..6 and scalar), square (2..8²), tile_unit_cell (regular and random Voronoi cells, "
              "all 1..4²), single_plaquette / wheel (3..40), ladder (3..30, both wobble settings) are compared exactly with the index-level model; closedness, polygon census, "
-             "coordination, V−E+F=0, areas summing to 1, proper colourings, translated-copy property and make_honeycomb's flux sector are evaluated on the implementation. nc_perm: translation by a fixed shift permutes the cells; honeycomb_trivalent and hso_trivalent: every vertex of honeycomb_lattice / hex_square_oct_lattice has exactly three edge ends, for every size.",
+             "coordination, V−E+F=0, areas summing to 1, proper colourings, translated-copy property and make_honeycomb's flux sector are evaluated on the implementation. nc_perm: translation by a fixed shift permutes the cells; honeycomb_trivalent and hso_trivalent: every vertex of honeycomb_lattice / hex_square_oct_lattice has exactly three edge ends, for every size; tile_degree: every site of every copy made by tile_unit_cell keeps the coordination it has in the unit cell, for every unit cell and tiling; trinon_trivalent: tri_non_lattice is trivalent for every (n_x, n_y) with the tables read from the source on this run; honeycomb_colouring_proper: the supplied honeycomb colouring puts exactly one end of each colour at every vertex, for every size; square_tetravalent: every vertex of square_lattice(n_x, n_y) has four edge ends.",
         note="Trusted: Lean kernel/Mathlib/standard axioms; translator; harness. Positions (irrational scale factors) are not modelled; the polygon census and areas are decided on "
              "the implementation's plaquettes (C01 ties those to the model). honeycomb trivalence / colouring properness for *all* n is decided by correspondence for n ≤ 16 plus the "
              "bijection theorem, not yet by a closed Lean proof of the degree count. n_vertical = round(n/√3) is computed exactly in the model (integer inequality).",
